@@ -88,12 +88,56 @@ def _snap():
     return json.dumps(dump_consts.dump(), sort_keys=True)
 
 
+def generic_snapshot():
+    """deep VALUE snapshot of every module-level int / bytes / str / list / tuple / dict / set (and field element) of every loaded
+    py_ecc module — whatever its name (catches tables the curated constant dump does not list, e.g. `__all__`)"""
+    import importlib
+    import pkgutil
+    import py_ecc
+    out = {}
+    names = ["py_ecc"] + [m.name for m in pkgutil.walk_packages(py_ecc.__path__, "py_ecc.")]
+    for nm in sorted(names):
+        try:
+            mod = importlib.import_module(nm)
+        except Exception:  # noqa: BLE001
+            continue
+        for k, v in sorted(vars(mod).items()):
+            if k.startswith("__") and k not in ("__all__",):
+                continue
+            if isinstance(v, (int, bytes, str, list, tuple, dict, set, frozenset)) or hasattr(v, "coeffs") or (hasattr(v, "n") and hasattr(v, "field_modulus")):
+                try:
+                    out[nm + "." + k] = repr(_val(v if not isinstance(v, (dict, set, frozenset)) else sorted(map(repr, v)) if not isinstance(v, dict) else sorted((repr(a), repr(_val(b))) for a, b in v.items())))
+                except Exception:  # noqa: BLE001
+                    out[nm + "." + k] = "<unrepresentable>"
+    return out
+
+
+def introspection_pred():
+    """dir() / __dir__ / __all__ / repr / hash / copy on the package, its modules and its values must not change any module-level value"""
+    import copy as _copy
+    import py_ecc
+    from py_ecc import optimized_bls12_381 as OB
+    before = generic_snapshot()
+    for _ in range(2):
+        dir(py_ecc)
+        py_ecc.__dir__()
+        list(getattr(py_ecc, "__all__", []))
+        for m in (py_ecc.bls, py_ecc.secp256k1, py_ecc.bn128, py_ecc.optimized_bls12_381):
+            dir(m)
+        repr(OB.G1), repr(OB.G2), _copy.deepcopy(OB.G2), _copy.copy(OB.G12)
+        str(OB.b2), OB.G2[0].sgn0, OB.G1[0].sgn0
+    after = generic_snapshot()
+    bad = sorted(k for k in before if after.get(k) != before[k]) + sorted(k for k in after if k not in before)
+    return (not bad, f"module-level values changed by introspection (dir / repr / copy): {bad[:5]}")
+
+
 def history_pred(lines, seed):
     """one interpreter: order A, order B, order A again; equal answers per call; constants unchanged"""
     import random
     import pyexec
     rng = random.Random(seed)
     before = _snap()
+    gbefore = generic_snapshot()
     calls = [ln.split("\t") for ln in lines]
     run = lambda c: pyexec.run_op(c[0], c[1:], {})  # noqa: E731
     a1 = {i: run(c) for i, c in enumerate(calls)}
@@ -108,6 +152,10 @@ def history_pred(lines, seed):
             bad.append(f"call {i} ({calls[i][0]}) answered {a1[i][:60]!r} / {b[i][:60]!r} / {a2[i][:60]!r} in different histories")
     if before != after:
         bad.append("a module-level constant changed during the history")
+    gafter = generic_snapshot()
+    ch = sorted(k for k in gbefore if gafter.get(k) != gbefore[k])
+    if ch:
+        bad.append(f"module-level values changed during the history: {ch[:4]}")
     return (not bad, f"history dependence: {bad[:3]} | history: {[c[0] for c in calls]}")
 
 
@@ -250,6 +298,12 @@ def _arg_thunks(rng):
     popagg = G2ProofOfPossession.Aggregate([G2ProofOfPossession.Sign(k, b"m") for k in sks])
     out.append(("FastAggregateVerify(list)", lambda: (G2ProofOfPossession.FastAggregateVerify, [list(reversed(pks)), b"m", popagg])))
     out.append(("_AggregatePKs(list)", lambda: (G2ProofOfPossession._AggregatePKs, [list(pks)])))
+    for C in (G2Basic, G2ProofOfPossession):
+        out.append((C.__name__ + ".KeyGen(bytearray, bytearray)", lambda C=C: (C.KeyGen, [bytearray(b"\x11" * 32), bytearray(b"info")])))
+        out.append((C.__name__ + ".KeyGen(bytearray)", lambda C=C: (C.KeyGen, [bytearray(range(40))])))
+        out.append((C.__name__ + ".Sign(bytearray msg)", lambda C=C: (C.Sign, [sks[0], bytearray(b"message")])))
+    out.append(("hkdf_extract(bytearrays)", lambda: (Hm.hkdf_extract, [bytearray(b"salt"), bytearray(b"ikm")])))
+    out.append(("hkdf_expand(bytearrays)", lambda: (Hm.hkdf_expand, [bytearray(b"\x01" * 32), bytearray(b"info"), 80])))
     out.append(("expand_message_xmd(bytearray)", lambda: (lambda m, d: Hm.expand_message_xmd(bytes(m), bytes(d), 96, hashlib.sha256), [bytearray(b"abc"), bytearray(b"dst")])))
     for M, nm in ((OB, "optimized_bls12_381"), (ON, "optimized_bn128")):
         pt = M.multiply(M.G1, 7)
@@ -280,6 +334,7 @@ def predicates(rng, tier, only=None):
     ps.append(Pred("fresh-interpreter", hash_function_history_pred, (("sha256", "sha512", "sha3_256"),)))
     ps.append(Pred("fresh-interpreter", hash_function_history_pred, (("sha512", "sha384", "blake2b", "sha256"),)))
     ps.append(Pred("fresh-interpreter", subclass_history_pred, (True,)))
+    ps.append(Pred("constants-unchanged", introspection_pred, ()))
     for name, th in _arg_thunks(rng):
         ps.append(Pred("arguments-unchanged", args_pred, (name, th)))
     if only:
